@@ -1455,6 +1455,56 @@ def _add_tie_tree(pid):
 for _pid in ("C14", "C15", "C01"):
     _add_tie_tree(_pid)
 
+# Tier T for the grid copy of the absolute-positioning code (task R; extract/src/absmod.rs): src/compute/grid/alignment.rs in full ->
+# Generated/GridAlign.lean (`align_item_within_area`, pure; `align_and_position_item` in interaction form over Gen.Tree.Prog as a function
+# of the child's style) and Generated/GridAlignTracks.lean (`align_tracks`, slices.rs). Props/TieAbsPos.lean proves them equal to
+# AbsPos.alignItemWithinArea, GridModel.alignAndPositionItem / AbsPos.absGrid and GridTracks.alignTracks for every argument and [Num α].
+TIE_ABSPOS = ["TieAbsPos." + t for t in (
+    "align_item_within_area_eq align_tracks_eq align_and_position_item_eq align_and_position_item_absGrid align_and_position_item_GM "
+    # the pieces
+    "line_sum_eq autoCount_eq stepBy_count_aux skip1_stepBy2_count mapIdxAccum_alignLoop resolve_to_option_eq "
+    "size_dim_f32_maybe_resolve_eq widthFill_eq heightFill_eq knownSrc_eq align_and_position_item_src "
+    # flexbox.rs perform_absolute_layout_on_absolute_children: the skip test and the loop body for one child
+    "abs_skip_eq abs_item_eq abs_item_absFlex abs_item_ProgM abs_item_src FlexSrc.fillWidth_eq FlexSrc.fillHeight_eq "
+    "FlexSrc.known_eq FlexSrc.location_eq toProgM_ite lpa_f32_maybe_resolve_some has_non_zero_area_eq "
+    # ... and the whole function (the loop over 0..child_count with its three header queries)
+    "abs_item_order_truncated abs_item_needs_isRow_witness progM_bind_assoc abs_loop_run "
+    "perform_absolute_layout_on_absolute_children_eq").split()]
+TIE_ABSPOS_TRUSTED = ("tier T (grid alignment / absolute positioning): Generated/GridAlign.lean and Generated/GridAlignTracks.lean are translated from "
+                      "src/compute/grid/alignment.rs on every run (verif/extract/src/absmod.rs; helpers Line::sum/map, Rect::map/horizontal_components/"
+                      "vertical_components of geometry.rs, LengthPercentageAuto::resolve_to_option of style/dimension.rs, Size<Dimension>::maybe_resolve(Size<f32>) "
+                      "of util/resolve.rs are translated there too). align_and_position_item is in interaction form over Gen.Tree.Prog: the statement "
+                      "`let style = tree.get_grid_child_style(node);` (checked: exactly one, a top-level statement, no tree interaction before it) is not a node "
+                      "of the program, its answer is the parameter `style` seen through GridItemStyle: CoreStyle (both trait declarations checked); "
+                      "perform_child_layout and set_unrounded_layout are nodes in the Rust order; the calc resolver closures are dropped; `o.or_else(|| …)` / "
+                      "`o.unwrap_or_else(|| …)` with pure closures are `match o with | some v => some v | none => …` / Option.getD (early returns inside the "
+                      "closure are pushed into the branches); struct InBothAbsAxis is generated from the source. align_tracks: `iter().skip(1).step_by(2)` is "
+                      "Slice.stepBy 2 (List.drop 1 ..), `iter_mut().enumerate().for_each(|(i, track)| …)` with the outer accumulator `total_offset` is "
+                      "Slice.mapIdxAccum (Model/SliceOps.lean, hand-written), `i % 2` with a literal divisor is plain Nat.mod. "
+                      "Generated/FlexAbs.lean: src/compute/flexbox.rs perform_absolute_layout_on_absolute_children. Its statements are compared with the "
+                      "scheme `lets over constants; let mut content_size = Size::ZERO; for order in 0..tree.child_count(node) { let child = "
+                      "tree.get_child_id(node, order); let child_style = tree.get_flexbox_child_style(child); if SKIP { continue; } BODY } content_size` "
+                      "(any other shape is an EXTRACT-ERROR); SKIP is translated as the pure function abs_skip, `lets; BODY` as the interaction program "
+                      "abs_item over Gen.Tree.Prog (parameters: constants, order, child, content_size and the child's style seen through FlexboxItemStyle: "
+                      "CoreStyle; a statement `if [let PAT =] e { … }` that only updates one local is `let x := match … | _ => x`), and the loop itself is emitted "
+                      "from the scheme over a generated program type with the three header queries (signatures compared with the trait declarations; "
+                      "`0..n` is List.range n). `order as u32` is `order % 2^32`: the ties assume the child index < 2^32 "
+                      "(TieAbsPos.abs_item_order_truncated shows the truncation for every input; the model stores the index) and constants.is_row = "
+                      "constants.dir.is_row() (true of compute_constants' result). runFlex / toProgM / toGM (Props/TieAbsPos.lean, hand-written) give "
+                      "the generated program types their meaning in the models' ProgM / GM with child id = child index")
+
+
+def _add_tie_abspos(pid):
+    c = PROPS[pid]
+    if "TaffyVerif.Props.TieAbsPos" not in c["modules"]:
+        c["modules"] = list(c["modules"]) + ["TaffyVerif.Props.TieAbsPos"]
+    c["theorems"] = list(c["theorems"]) + [t for t in TIE_ABSPOS if t not in c["theorems"]]
+    c["trusted_base"] = list(c.get("trusted_base", [])) + [TIE_ABSPOS_TRUSTED]
+
+
+for _pid in ("C11", "C06", "C12", "C04"):
+    _add_tie_abspos(_pid)
+
 
 # C03 (finiteness): the models instantiated at the extended numbers ER = fin q | +inf | -inf | nan (Model/ExtNum.lean, IEEE-faithful except
 # that overflow of finite arithmetic and the sign of zero are not modelled): leaf, root driver, block and flex programs and the tree-level
